@@ -206,5 +206,10 @@ func runReplay(file, dir string) error {
 		fmt.Fprintf(cf, "%s %s%s\n", toks[0], toks[1], in)
 		fmt.Fprintf(jf, "%s%s\n", toks[0], out)
 	}
+	ef, _ := os.Create(dir + "/errors.txt")
+	defer ef.Close()
+	for k, v := range errSeen {
+		fmt.Fprintf(ef, "%d %s\n", v, strings.ReplaceAll(k, "\n", " "))
+	}
 	return sc.Err()
 }
